@@ -1548,6 +1548,20 @@ unsigned MEDDLY::forest::countRegisteredEdges() const
     return count;
 }
 
+#ifdef MEDDLY_VERIF_HOOKS
+void MEDDLY::forest::verif_enumRoots(std::vector<node_handle> &out) const
+{
+    for (const dd_edge* r = roots; r; r=r->next) {
+        out.push_back(r->getNode());
+    }
+}
+
+unsigned long MEDDLY::forest::verif_cacheCount(node_handle p) const
+{
+    return nodeHeaders.getNodeCacheCount(p);
+}
+#endif
+
 void MEDDLY::forest::markAllRoots()
 {
     if (!reachable) return;
